@@ -177,6 +177,44 @@ def run(ctx):
             c.ob("R4", len(restores) >= 2, ex, "rollback-restores", "handler restores the configuration (clear + update)" if len(restores) >= 2 else
                  "the rollback handler does not restore the configuration", h)
     shared.rollback_rearm(ctx, "R4")
+    # ---- R6 a containment handler cannot itself fail on the object it is containing --------------
+    # Handlers that contain user code (subscribers, listeners, actions, plugin hooks) may log, notify plugins
+    # (wrapped: R3) and return.  A package helper called from the handler - also inside the arguments of the
+    # logging call - must not dereference plain attributes of the user object (``cb.__name__``): callables such
+    # as functools.partial or callable instances lack them, the handler raises and nothing contains the failure.
+    n6 = 0
+    for v in VIEWS:
+        r = roles(ctx, v)
+        for f in r.funcs + [p.cls("_SafePlugin").methods["__getattr__"].nested.get("_guarded")]:
+            if f is None or f.module.name not in ENGINE_MODULES:
+                continue
+            dyn = [s_ for s_ in res.callsites(f, v) if s_.kind == "dynamic"]
+            if not dyn:
+                continue
+            for s_ in dyn:
+                h = local_container(f, s_.call)
+                if h is None:
+                    continue
+                for x in ast.walk(h):
+                    if not isinstance(x, ast.Call):
+                        continue
+                    site = next((y for y in res.callsites(f, v) if y.call is x), None)
+                    if site is None or site.kind != "resolved":
+                        continue
+                    for t in site.targets:
+                        if t.module.name not in ENGINE_MODULES or t.name.startswith("on_"):
+                            continue
+                        n6 += 1
+                        params = [a for a in t.params if a not in ("self", "cls")]
+                        risky = [y for y in own_nodes(t.node) if isinstance(y, ast.Attribute) and isinstance(y.ctx, ast.Load) and isinstance(y.value, ast.Name)
+                                 and y.value.id in params and y.attr.startswith("__") and not any(
+                                     isinstance(tr, ast.Try) for tr in __import__("sa.util", fromlist=["ancestors"]).ancestors(t, y))]
+                        c.ob("R6", not risky, f, f"{v}:handler-helper:{t.name}",
+                             f"helper {t.short} called from the containment handler cannot fail on the contained object" if not risky else
+                             f"the handler that contains a failing {s_.callee_text}() calls {t.short}, which dereferences '{norm(risky[0])}' of the user "
+                             f"object without a default: for a functools.partial / callable instance the handler itself raises AttributeError and the "
+                             f"original failure is no longer contained", x)
+    c.ob("R6", True, "containment handlers", "handler-helpers", f"{n6} package helpers called from containment handlers examined", None, nontrivial=False)
     # ---- R5 async run loop survives a failing event --------------------------------
     dr = roles(ctx, "Interpreter").drain
     loop = next((l for l in own_nodes(dr.node) if isinstance(l, ast.While)), None)
